@@ -2309,11 +2309,120 @@ fn c10_streams(tier: Tier) -> Vec<(Vec<u8>, String)> {
     v
 }
 
+/// A client that does not READ: it asks for a value of `big` bytes `gets` times with a receive
+/// buffer of 4 KiB, reads nothing, and then sends `tail` (garbage, an unknown command, nothing) and
+/// possibly half-closes. Whatever the server does with that connection, the control connection is
+/// answered (within the 6 s cap) right after, and the data is unchanged.
+pub fn c10_deaf_case(dir: &Path, big: usize, gets: usize, tail: &[u8], half_close: bool) -> Result<String, V> {
+    let srv = Srv::start(dir, &SrvCfg { max_connections: 8, max_file_size: 1 << 31, gated: false }).map_err(mach)?;
+    let r = (|| -> Result<String, V> {
+        let value: Vec<u8> = (0..big).map(|i| b'a' + (i % 23) as u8).collect();
+        srv.handle.set(Bytes::from_static(b"big"), Bytes::from(value.clone())).map_err(|e| mach(e.to_string()))?;
+        let mut b = srv.connect().map_err(|e| mach(format!("connect: {}", e)))?;
+        b.write_all(&Req::Set(b"ctl".to_vec(), b"v1".to_vec()).encode()).map_err(|e| mach(e.to_string()))?;
+        match read_frame(&mut b, T20) {
+            Ok((RFrame::Simple(s), _)) if s == b"OK" => {}
+            o => return Err(("control-connection-wrong-answer".into(), format!("SET ctl: {:?}", o.map(|x| x.0)))),
+        }
+        let e0 = srv.epoch();
+        let mut a = srv.connect_small_rcvbuf(4096).map_err(|e| mach(format!("connect: {}", e)))?;
+        for _ in 0..gets {
+            a.write_all(&Req::Get(b"big".to_vec()).encode()).map_err(|e| mach(e.to_string()))?;
+        }
+        srv.quiesce(e0);
+        let e1 = srv.epoch();
+        let _ = a.write_all(tail);
+        if half_close {
+            a.shutdown(NetShutdown::Write).ok();
+        }
+        // the server digests that; a thread that is busy with it for seconds serves nobody else
+        let tq = Instant::now();
+        srv.quiesce(e1);
+        if tq.elapsed() > T20 {
+            return Err(("other-connection-not-served".into(), format!("a client asked {} times for a {}-byte value without reading, then sent {:?}{}: the server's thread was busy with that for {} ms (it runs every connection)", gets, big, String::from_utf8_lossy(tail), if half_close { " and half-closed" } else { "" }, tq.elapsed().as_millis())));
+        }
+        // the control connection, and a new one, are served at once
+        let t0 = Instant::now();
+        b.write_all(&Req::Get(b"ctl".to_vec()).encode()).map_err(|e| mach(e.to_string()))?;
+        match read_frame(&mut b, T20) {
+            Ok((RFrame::Bulk(v), _)) if v == b"v1" => {}
+            o => return Err(("other-connection-not-served".into(), format!("a client asked {} times for a {}-byte value without reading, then sent {:?}{}; GET ctl on another connection right after: {:?} after {} ms", gets, big, String::from_utf8_lossy(tail), if half_close { " and half-closed" } else { "" }, o.map(|x| x.0), t0.elapsed().as_millis()))),
+        }
+        let mut c = srv.connect().map_err(|e| ("listener-gone".to_string(), format!("a new connection cannot connect: {}", e)))?;
+        c.write_all(&Req::Get(b"ctl".to_vec()).encode()).map_err(|e| mach(e.to_string()))?;
+        match read_frame(&mut c, T20) {
+            Ok((RFrame::Bulk(v), _)) if v == b"v1" => {}
+            o => return Err(("other-connection-not-served".into(), format!("a new connection after the non-reading client ({} x {} bytes, then {:?}): GET ctl -> {:?}", gets, big, String::from_utf8_lossy(tail), o.map(|x| x.0)))),
+        }
+        // the non-reading client now reads: complete replies of the GETs it sent, then whatever
+        a.set_read_timeout(Some(Duration::from_millis(1500))).ok();
+        let mut got = vec![];
+        let mut buf = vec![0u8; 1 << 16];
+        let t1 = Instant::now();
+        loop {
+            match a.read(&mut buf) {
+                Ok(0) => break,
+                Ok(n) => got.extend_from_slice(&buf[..n]),
+                Err(_) => break,
+            }
+            if t1.elapsed() > T20 {
+                break;
+            }
+        }
+        let one: Vec<u8> = [format!("${}\r\n", big).into_bytes(), value.clone(), b"\r\n".to_vec()].concat();
+        let whole = got.len() / one.len();
+        if whole > gets || (0..whole).any(|i| got[i * one.len()..(i + 1) * one.len()] != one[..]) {
+            return Err(("wrong-reply-to-the-non-reading-client".into(), format!("{} bytes received; they do not start with {} complete replies of {} bytes", got.len(), whole, one.len())));
+        }
+        drop(a);
+        let contents = srv.store_contents(&[b"ctl".to_vec(), b"big".to_vec()]);
+        if contents.get(&b"ctl".to_vec()) != Some(&b"v1".to_vec()) || contents.get(&b"big".to_vec()) != Some(&value) {
+            return Err(("store-changed-by-hostile-input".into(), "ctl / big differ from what was set".into()));
+        }
+        Ok(format!("deaf:{}-replies-read", whole))
+    })();
+    let stopped = srv.stop();
+    let o = r?;
+    if !stopped {
+        return Err(mach("server did not stop"));
+    }
+    Ok(o)
+}
+
 pub fn c10(job: &Job, sh: &mut Shard, t0: Instant) {
     let streams = c10_streams(job.tier);
     let dir = job.scratch().join("store");
     let total = streams.len();
     let mut n = 0usize;
+    // the client that does not read
+    let bigs: Vec<usize> = if job.tier == Tier::Quick { vec![16 << 10, 256 << 10, 1 << 20] } else { vec![4 << 10, 16 << 10, 64 << 10, 256 << 10, 1 << 20, 2 << 20, 4 << 20] };
+    let tails: Vec<&[u8]> = vec![b"!\r\n", b"*1\r\n$3\r\nFOO\r\n", b"*2\r\n$3\r\nGET\r\n", b""];
+    for &big in &bigs {
+        for gets in [1usize, 3] {
+            for (ti, tail) in tails.iter().enumerate() {
+                for half_close in [false, true] {
+                    n += 1;
+                    if n % job.nshards != job.shard {
+                        continue;
+                    }
+                    let case = json!({"engine": "net", "kind": "c10deaf", "big": big, "gets": gets, "tail": ti, "half_close": half_close});
+                    job.progress(&case);
+                    sh.evaluations += 1;
+                    sh.transitions += 4;
+                    sh.states.insert(fnv(format!("deaf{}{}{}{}", big, gets, ti, half_close).as_bytes()));
+                    sh.nontrivial.insert(fnv(format!("deaf{}{}{}{}", big, gets, ti, half_close).as_bytes()));
+                    match c10_deaf_case(&dir, big, gets, tail, half_close) {
+                        Ok(o) => sh.outcome(o),
+                        Err((c, msg)) if c == "MACHINERY" => sh.machinery_errors.push(format!("C10 non-reading client: {}", msg)),
+                        Err((c, msg)) => match c10_deaf_case(&dir, big, gets, tail, half_close) {
+                            Err((c2, _)) if c2 == c => sh.violate(Violation { class: format!("C10:{}", c), msg, case }),
+                            other => sh.machinery_errors.push(format!("C10 violation {} not reproduced ({:?}): {}", c, other.map_err(|e| e.0), msg)),
+                        },
+                    }
+                }
+            }
+        }
+    }
     for (i, (s, what)) in streams.iter().enumerate() {
         for (j, ending) in [Ending::Close, Ending::HalfClose, Ending::LeaveOpen].into_iter().enumerate() {
             for (k, a_first, crowd) in [(0usize, false, 0usize), (1, true, 0), (0, false, 12)] {
@@ -2415,6 +2524,10 @@ pub fn replay(prop: &str, case: &Value, dir: &Path) -> Vec<Violation> {
             let ord: Vec<usize> = case["order"].as_array().map(|a| a.iter().map(|x| x.as_u64().unwrap() as usize).collect()).unwrap_or_default();
             let inner = case["inner"].as_u64().map(|x| x as u8).unwrap_or(if case["inner"].as_bool().unwrap_or(false) { 1 } else { 0 });
             push(c11_run(dir, &progs, &ord, case["max_file_size"].as_u64().unwrap_or(1 << 31), case["merge"].as_bool().unwrap_or(false), inner));
+        }
+        "c10deaf" => {
+            let tails: Vec<&[u8]> = vec![b"!\r\n", b"*1\r\n$3\r\nFOO\r\n", b"*2\r\n$3\r\nGET\r\n", b""];
+            push(c10_deaf_case(dir, case["big"].as_u64().unwrap_or(0) as usize, case["gets"].as_u64().unwrap_or(1) as usize, tails[case["tail"].as_u64().unwrap_or(0) as usize % 4], case["half_close"].as_bool().unwrap_or(false)));
         }
         "c20srv" => push(c20_server_case(dir, case["cmd"].as_u64().unwrap_or(0) as usize, case["fail_key"].as_u64().unwrap_or(0) as usize)),
         "c10q" => {
